@@ -3,6 +3,7 @@ package checks
 import (
 	"bytes"
 	"context"
+	"crypto/tls"
 	"encoding/binary"
 	"fmt"
 	"runtime"
@@ -26,7 +27,7 @@ const c04L = 1 << 16
 
 func init() {
 	core.Register(c04{base{id: "C04", level: "fault_enumeration", quickB: 16, thoroughB: 32,
-		rule: "two parts, both in isolated child processes (a panic anywhere kills the child = crash witness). (1) fault enumeration, exhaustive: for each canonical session (auth ok/rejected, simple, multi-statement, extended batch, error batch, text and binary COPY ok/aborted, oversized message, Terminate, generated C15 sessions; 10 in quick, 40 in thorough) the fault-free run's number of transport Read calls, Write calls and inbound bytes is measured, then the session is re-run with the transport failing at EVERY k-th Read (error and EOF), EVERY k-th Write (error and short write) and EVERY inbound byte offset. (2) input exploration: structure-aware mutation of valid streams (truncate at any offset, set any length/count field to 0,1,max-1,max,2^31,2^32-1, flip type bytes, duplicate/reorder/delete messages, splice random bytes) on fresh connections (incl. SSLRequest and password phases) and after a valid startup incl. COPY mode; handlers call ParseParameters on every query, Parameter.Scan on every parameter and the binary COPY row reader. Oracles: process survives; after EOF/transport failure the server's own Close is observed and at most 64 further transport calls are made (spin detector); no (*Server).serve goroutine is left at batch end; a fresh probe connection is served after every 200 cases; allocation sanitizer: no object allocated by library code exceeds 8L+4MiB; no fabricated data: query texts reaching the parser are, in order, a subsequence of the texts carried by well-framed Query/Parse frames of the input, parameter values and COPY chunks are byte strings of the input. Non-trivial = fault at a position the fault-free run reaches, or a mutated stream; distinct = (session, fault kind, position) / mutation shape.",
+		rule: "two parts, both in isolated child processes (a panic anywhere kills the child = crash witness). (1) fault enumeration, exhaustive: for each canonical session (auth ok/rejected, simple, multi-statement, extended batch, error batch, text and binary COPY ok/aborted, oversized message, Terminate, generated C15 sessions; 10 in quick, 40 in thorough) the fault-free run's number of transport Read calls, Write calls and inbound bytes is measured, then the session is re-run with the transport failing at EVERY k-th Read (error and EOF), EVERY k-th Write (error and short write) and EVERY inbound byte offset. (2) input exploration: structure-aware mutation of valid streams (truncate at any offset, set any length/count field to 0,1,max-1,max,2^31,2^32-1, flip type bytes, duplicate/reorder/delete messages, splice random bytes) on fresh connections (incl. SSLRequest and password phases), after a valid startup incl. COPY mode, and inside upgraded TLS connections; handlers call ParseParameters on every query, Parameter.Scan on every parameter and the binary COPY row reader. Oracles: process survives; after EOF/transport failure the server's own Close is observed and at most 64 further transport calls are made (spin detector); no (*Server).serve goroutine is left at batch end; a fresh probe connection is served after every 200 cases; allocation sanitizer: no object allocated by library code exceeds 8L+4MiB; no fabricated data: query texts reaching the parser are, in order, a subsequence of the texts carried by well-framed Query/Parse frames of the input, parameter values and COPY chunks are byte strings of the input. Non-trivial = fault at a position the fault-free run reaches, or a mutated stream; distinct = (session, fault kind, position) / mutation shape.",
 		need:        []string{"fault_runs", "read_faults", "write_faults", "byte_offset_faults", "mutated_inputs", "server_close_observed", "probe_connections_served", "leak_checks", "alloc_profile_checks", "fabrication_checks"},
 		assumptions: append([]string{"allocation bound is c*L+K (8L+4MiB): the library allocates in 4 KiB granules and its 16-bit count fields cap tables at ~2.6 MiB regardless of L; a malformed body may be answered by an ErrorResponse or by closing the connection; after a frame with a declared length below 4 the input is not judged for fabrication"}, commonAssumptions...)}})
 }
@@ -136,6 +137,7 @@ func (e c04envs) pick(auth bool) *hs.Env {
 func (ch c04) Run(c *core.Ctx) {
 	core.AllocSanitizerOn()
 	tr.WatchdogTimeout = 30 * time.Second
+	envTLS := hs.Start(hs.Parse, wire.MessageBufferSize(c04L), wire.TLSConfig(hs.ServerTLS()))
 	envs := c04envs{plain: hs.Start(hs.Parse, wire.MessageBufferSize(c04L)), auth: hs.Start(hs.Parse, wire.MessageBufferSize(c04L), wire.SessionAuthStrategy(wire.ClearTextPassword(c04validator)))}
 	nb := ch.Batches(c.Tier)
 	ncanon, nmut := 11, 2500
@@ -286,6 +288,26 @@ func (ch c04) Run(c *core.Ctx) {
 		if p, ok := c04genProgs[s.Name]; ok {
 			sess.Progs = p
 		}
+		if i%16 == 5 && !s.Auth && s.Name != "ssl-refused" {
+			// the same hostile stream inside an upgraded TLS connection
+			if t, _, err := c11upgrade(envTLS, sess, nil, false, tls.VersionTLS13); err == nil {
+				t.tc.Write(stream)
+				t.conn.Quiesce()
+				t.tc.Close()
+				t.conn.CloseWrite()
+				if !t.conn.WaitClosed() {
+					dump, lib := core.ClassifyHang()
+					if len(lib) > 0 {
+						c.Violate("wedge", "connection handling does not end after input ended (inside TLS, "+shape+"): "+strings.Join(lib, "; "), trim(dump, 3000), map[string]any{"mutation": shape})
+					}
+					c.Finish()
+					break
+				}
+				c.Count("mutated_inputs_inside_tls", 1)
+				c.Count("server_close_observed", 1)
+			}
+			continue
+		}
 		conn := tr.NewConn(sess)
 		conn.NoLog = true
 		envs.pick(s.Auth).L.DialConn(conn)
@@ -330,6 +352,7 @@ func (ch c04) Run(c *core.Ctx) {
 	probe()
 	envs.plain.Stop()
 	envs.auth.Stop()
+	envTLS.Stop()
 	// leak check: no connection goroutine may be left once every client has closed
 	leaked := ""
 	for i := 0; i < 400; i++ {
